@@ -151,7 +151,7 @@ def gen_cases(tier):
     seqs = [[f] for f in fnames]
     for n in (2, 3, 4):
         allseq = list(itertools.permutations(fnames, n))
-        seqs += [list(s) for s in r.sample(allseq, 40 if tier == "quick" else 400)]
+        seqs += [list(s) for s in r.sample(allseq, min(len(allseq), 40 if tier == "quick" else 400))]
     rules = [",".join("rules/" + f for f in s) for s in seqs]
     rules += ["rules/valid*.go", "rules/nomatch*.go", "rules/validA.go,rules/nomatch*.go", "rules/*.go", "rules/valid?.go,rules/syntax.go", "", "rules/missing.go", "rules/validB.go,rules/missing.go"]
     failons = [("", False), ("", True), ("dsl", False), ("import", False), ("all", False), ("dsl,import", False), ("zzz", False), ("dsl,zzz", False), ("import", True), ("all,dsl", False)]
